@@ -85,6 +85,12 @@ def specs(thorough):
                 for seg in ("whole", "marks"):
                     for dc in (True, False):
                         out.append((size, coding, ("chunked", "1-7-rest", ext, False), seg, dc))
+    # alias / other-case spellings of the codings, alone and in stacks
+    for size in (0, 5, 70):
+        for coding in respgen.ALIAS_CODINGS:
+            for fr in (("cl",), ("chunked", "1-7-rest", False, False)):
+                for seg in ("whole", "marks"):
+                    out.append((size, coding, fr, seg, True))
     # every composition of a tiny identity body into <= 3 chunks
     for size in (1, 2, 5):
         for comp in compositions(size, 3):
@@ -418,7 +424,7 @@ def run(ctx):
     ctx.finish("model_checking", acc, cov,
                assumptions=["responses come from the real HTTPConnection.getresponse() over simnet; reference payloads from gzip/zlib/zstandard one-shot encoders",
                             "decode_content is passed explicitly and kept constant within a program"],
-               vacuity=[(codings_seen == set(respgen.CODINGS), "codings not all exercised"),
+               vacuity=[(codings_seen == set(respgen.CODINGS) | set(respgen.ALIAS_CODINGS), "codings not all exercised"),
                         (acc.n > 100000, "too few runs"),
                         (len([k for k in acc.outcomes if str(k).startswith("ok-")]) >= 8, "too few program kinds succeeded")])
 
